@@ -65,9 +65,31 @@ def step_obligations():
     return obs
 
 
+HANN = [("src/nanovm/heap.c", "contracts/loops/heap.c.loops")]
+KINDS = {"scalar": 0, "string": 5, "array": 7, "struct": 8, "union": 10, "tuple": 12, "closure": 11}
+NOBODY = ["release_hashmap", "vm_hashmap_new", "vm_hashmap_get", "vm_hashmap_set", "vm_hashmap_has", "vm_hashmap_delete",
+          "vm_hashmap_keys", "vm_hashmap_values", "hm_resize", "vm_string_new", "vm_string_concat", "vm_string_substr",
+          "vmstring_char_at", "vm_string_from_int", "vm_string_from_float", "vm_string_from_bool", "vmstring_contains",
+          "vmstring_equal", "vmstring_compare", "vm_heap_init", "vm_heap_destroy"]
+
+
+def release_obligations():
+    obs = []
+    gi = ["--enforce-contract-rec", "vm_release"]
+    for f in NOBODY:
+        gi += ["--remove-function-body", f]
+    for nm, k in KINDS.items():
+        obs.append(dict(id="C14.heap.release." + nm, prop="C14", harness=HEAP, entry="h_release", annotate=HANN,
+                        defines={"VERIF_HKIND": k}, gi_flags=gi, loops=True, unwind="auto", strength="X",
+                        functions=["vm_release", "release_array", "release_struct", "release_union", "release_tuple", "release_closure"],
+                        timeout=900, must_have=[r"vm_release\.postcondition", r"COVER"], min_checks=30))
+    return obs
+
+
 def obligations(repo):
     obs = []
     obs.append(dict(id="C14.heap.retain", prop="C14", harness=HEAP, entry="h_retain", enforce="vm_retain", unwind=5,
                     strength="U", functions=["vm_retain"], must_have=[r"vm_retain\.postcondition", r"COVER"], min_checks=10))
+    obs += release_obligations()
     obs += step_obligations()
     return obs
